@@ -299,7 +299,30 @@ def rule_complete_walks(ck):
     ])
 
 
+def rule_thread_list(ck):
+    """the thread list equals the kernel's list of live threads: nothing between the registry and the list may drop one"""
+    prog = ck.prog
+    ck.rule("table.thread_list", "Debugee::thread_state produces exactly one ThreadSnapshot per registered tracee: TraceeCtl::snapshot copies every value of threads_state, and the chain over that snapshot consists of element-preserving adapters only (map / collect; no filter, filter_map, take, skip …) — what cannot be computed for a thread (backtrace, place) is an empty field of its entry, not a missing entry; Tracee::location fails only when the registers cannot be read, never because the pc belongs to no known object")
+    f = ck.anchor("debugger::debugee::Debugee::thread_state")
+    chain = [c for c in f.calls() if c.args and "snapshot(" in expr_str(expr_of(f, c.args[0], depth=12), 8) and ("Iterator" in c.name or "iter::" in c.name)]
+    names = [c.name.rsplit("::", 1)[-1] for c in chain]
+    ok = bool(chain) and set(names) <= {"into_iter", "map", "collect", "enumerate", "iter"} and "collect" in names
+    ck.ob("table.thread_list", "thread_state/one-entry-per-tracee", ok, f"adapters over the snapshot: {names}", f.loc(), what="a live thread can be missing from the thread list (console `thread info`, TUI, DAP `threads`)")
+    g = ck.anchor(TC + "::snapshot")
+    gn = [c.name.rsplit("::", 1)[-1] for c in g.calls() if "Iterator" in c.name or "iter::" in c.name or "HashMap" in c.name]
+    ok = set(gn) <= {"values", "cloned", "collect", "iter", "map", "into_iter", "copied"} and "collect" in gn and any(".threads_state" in expr_str(expr_of(g, c.args[0]), 5) for c in g.calls() if c.args)
+    ck.ob("table.thread_list", "TraceeCtl::snapshot/copies-every-thread", ok, f"{gn}", g.loc())
+    l = ck.anchor(TE + "::location")
+    srcs = []
+    for c in l.calls():
+        if c.path.endswith("FromResidual::from_residual"):
+            srcs.append(expr_str(expr_of(l, c.args[0], depth=8), 6))
+    ok = len(srcs) == 1 and "pc(" in srcs[0] and "into_global" not in srcs[0]
+    ck.ob("table.thread_list", "Tracee::location/fails-only-when-registers-cannot-be-read", ok, f"`?` sources: {srcs}", l.loc(), what="a thread whose pc lies outside every known object (vdso, JIT) cannot be located: a signal or breakpoint stop of that thread is answered with an error instead of being reported, and the thread cannot be focused")
+
+
 def run(ck):
+    rule_thread_list(ck)
     rule_complete_walks(ck)
     # "no thread's original instruction is skipped or executed twice": the rewind / step-off discipline (shared with C01)
     from rules import C01
